@@ -218,6 +218,7 @@ static void op_solve(char** tok) {
   put_ints("type", d->efc_type, nefc, 0); put_ints("id", d->efc_id, nefc, 0); put_ints("state", d->efc_state, nefc, 0);
   if (d->nisland > 0 && nefc) put_ints("efc_island", d->efc_island, nefc, 0);
   if (d->nisland > 0) put_ints("dof_island", d->dof_island, nv, 0);
+  put_ints("dof_treeid", m->dof_treeid, nv, 0);
   printf("\"contacts\":[");
   for (int i = 0; i < d->ncon; i++) {
     mjContact* c = d->contact + i;
